@@ -187,7 +187,12 @@ def run_contract(prop: str, c: FnContract, reg: Registry, uni: Universe, *, repo
     rep.gen_seconds = time.time() - t0
     rep.covers = covers
     for ob in obls.values():
-        rep.obligations.append(discharge(ob, timeout_ms, getattr(ex, "witness_terms", {})))
+        d = discharge(ob, timeout_ms, getattr(ex, "witness_terms", {}))
+        if getattr(c, "bounded", ""):
+            d["id"] += ".BOUNDED"
+            d["kind"] = "bounded"
+            d["bound"] = c.bounded
+        rep.obligations.append(d)
     return rep
 
 
@@ -205,6 +210,8 @@ def discharge(ob: Obligation, timeout_ms=None, witness_terms=None):
                 status, reason = "unknown", vc.note
             continue
         r = solve.check_vc(vc.pc, vc.goal, timeout_ms)
+        if r.status == "unknown":
+            r = _split_conjuncts(vc, timeout_ms, r)
         secs += r.seconds
         backends[r.backend] = backends.get(r.backend, 0) + 1
         if r.status == "proved" and (r.reason or "").startswith("cross:"):
@@ -220,6 +227,33 @@ def discharge(ob: Obligation, timeout_ms=None, witness_terms=None):
             reason = r.reason
     return {"id": ob.oid, "kind": ob.kind, "status": status, "vcs": nvc, "seconds": round(secs, 4),
             "backends": backends, "witness": witness, "reason": reason, "loc": ob.loc, "cross": cross}
+
+
+def _split_conjuncts(vc, timeout_ms, first):
+    """A conjunctive goal the solver leaves unknown is retried conjunct by conjunct (valid iff every conjunct is valid)."""
+    def flat(e):
+        if z3.is_and(e):
+            out = []
+            for ch in e.children():
+                out.extend(flat(ch))
+            return out
+        return [e]
+    parts = flat(vc.goal) if z3.is_expr(vc.goal) else []
+    if len(parts) < 2:
+        return first
+    total = first.seconds
+    worst = None
+    for g in parts:
+        r = solve.check_vc(vc.pc, g, timeout_ms)
+        total += r.seconds
+        if r.status == "refuted":
+            r.seconds = total
+            return r
+        if r.status == "unknown":
+            worst = r
+    res = worst if worst is not None else solve.VCResult("proved", "z3", total)
+    res.seconds = total
+    return res
 
 
 def _decode(model, t):
@@ -408,6 +442,10 @@ def _eq(ex, st, a: V, b: V):
         return z3.And([_eq(ex, st, x, y) for x, y in zip(ia, ib)] + [z3.BoolVal(True)])
     if isinstance(a, VUnk) or isinstance(b, VUnk):
         return z3.BoolVal(False)
+    if isinstance(a, VSeq) and isinstance(b, VSeq):
+        # goal position only: the free index constant makes the VC range over every index
+        j = z3.Int(fresh_name("j!eq"))
+        return z3.And(a.length == b.length, z3.Implies(z3.And(j >= 0, j < a.length), _eq(ex, st, a.elem(j), b.elem(j))))
     try:
         return ops.eq_term(a, b)
     except Unsupported:
